@@ -1,7 +1,7 @@
 (* C05: from the well-formedness of a case to the hypotheses of the resolver theorems, and the
    per-case statement [wf c -> kf c = 0 -> spec c (model c) = true]. *)
 From LC Require Import Lib.Bytes Lib.Lex Lib.Fields Lib.PathM Model.Resolve Model.Profile Cases.Verdict Cases.C05
-  Proofs.ResolveBasics Proofs.AtomSetP Proofs.ResolveInv Proofs.ResolveP Proofs.ClosureP Proofs.StageP Proofs.ProfileP.
+  Proofs.ResolveBasics Proofs.AtomSetP Proofs.ResolveInv Proofs.ResolveP Proofs.ClosureP Proofs.StageP Proofs.ProfileP Proofs.C05L.
 Import C05.
 
 (* ---- reflection of the boolean well-formedness conditions *)
@@ -289,10 +289,24 @@ Proof.
   exact (existsb_false_all _ _ Hc dd Hd).
 Qed.
 
+Lemma triple_beq_true x y : triple_beq x y = true <-> x = y.
+Proof.
+  destruct x as [a [b d]], y as [a' [b' d']]. unfold triple_beq. cbn [fst snd].
+  rewrite !andb_true_iff, !beq_true. split; [intros [[-> ->] ->]; reflexivity|intros E; injection E as -> -> ->; auto].
+Qed.
+
 Theorem holds : spec c (model c) = true.
 Proof.
   destruct wf_parts as (Hperm & _).
-  unfold spec, model. cbn [o_sys o_stage o_bin_sys o_bin_stage o_bin_stage2]. rewrite !lres_beq_refl, !andb_true_r.
+  unfold spec. apply andb_true_iff. split; cycle 1.
+  { (* the loader's view of the database is the database *)
+    unfold spec_loader, model. cbn [o_listed o_loaded].
+    change (map N.of_nat (seq 0 (length vdb))) with (ids vdb).
+    rewrite (listed_db vdb (c_enum c) Hperm), (loaded_view_db vdb c_keys_nodup (c_enum c) Hperm).
+    apply andb_true_iff. split.
+    - apply (list_beq_true beq beq_true). reflexivity.
+    - apply (list_beq_true triple_beq triple_beq_true). reflexivity. }
+  unfold model. cbn [o_sys o_stage o_bin_sys o_bin_stage o_bin_stage2]. rewrite !lres_beq_refl, !andb_true_r.
   match goal with |- ?a && ?a && ?b && ?b = true => assert (G : a = true /\ b = true);
     [|destruct G as [-> ->]; reflexivity] end.
   destruct sys_cases as [[E AP]|(u2 & E & U2 & AP & RQ & ND)]; rewrite E.
